@@ -1,7 +1,7 @@
 """Contracts for NameSanitizer (C20).  Top-level postcondition from the statement: the result is a non-empty valid Python
 identifier that is not a keyword, for EVERY input string."""
 from pyvc.contracts import contract
-from pyvc.spec import is_ascii_identifier, is_keyword
+from pyvc.spec import is_ascii_identifier, is_keyword, implies
 
 U = "pyopenapi_gen.core.utils"
 
@@ -10,3 +10,13 @@ c = contract(f"{U}:NameSanitizer.sanitize_method_name", props=["C20"], types={"n
 @c.ensures(note="C20 statement: total on str; result is a non-empty ASCII identifier and not a keyword (method, field and parameter names)")
 def smn_identifier(name, result):
     return is_ascii_identifier(result) and not is_keyword(result)
+
+
+# ---- enum member names: never a name that Enum reserves for itself (C20 / C01) -------------------------------------------------------
+c = contract("pyopenapi_gen.visit.model.enum_generator:EnumGenerator._generate_member_name_for_string_enum", props=["C20"], abstract_unsupported=True,
+             tracked_names=["sanitized_member_name"])
+
+@c.ensures(note="C20: whatever the value, the member name is not a _sunder_ / __dunder__ name (Enum rejects the former when the class is created and does not "
+                "turn the latter into members) — for every string the earlier sanitising steps may produce")
+def emn_not_reserved(self, value, result):
+    return implies(isinstance(result, str), not (result.startswith("_") and result.endswith("_")))
